@@ -729,7 +729,27 @@ def check_c12(tier: str) -> int:
         last_err = {n: None for n in ids}
         last_ver = inst.version
         for _ in range(rng.choice([8, 16, 30])):
-            k = rng.randrange(9)
+            k = rng.randrange(10)
+            if k == 9:
+                # directed: the same callback in both AC sets (in either order, possibly registered twice), taken out of
+                # one of them, then a change of that AC - membership of the two sets is independent, each is a set
+                n = rng.choice(ids)
+                sid = rng.randrange(10, 13)
+                first, second = rng.choice([(2, 4), (4, 2), (2, 2), (4, 4)])
+                out = rng.choice([3, 5])
+                for kind in (first, second, out):
+                    script.append(("sub", kind, n, sid))
+                    ref.sub(kind, n, sid)
+                    expect.append([])
+                st = rand_ac_status(inst, rng, n)
+                script.append(("frame", 0xB0, inst.wrap(inst.m["astat"].AcStatusMessage([st]))))
+                changed = st != last_ac[n]
+                expect.append(ref.ac_changed(n) if changed else [])
+                if changed and st.error_code == 0:
+                    last_err[n] = None
+                last_ac[n] = st
+                dist["directed-both-sets"] += 1
+                continue
             if k < 3:
                 kind = rng.randrange(8)
                 ent = rng.choice(zids) if kind in (0, 1) and zids else (rng.choice(ids) if kind in (2, 3, 4, 5) else 0)
